@@ -29,4 +29,10 @@ OBLIGATIONS += [
           "title": "sm2_do_decrypt: no data dump on any path", "bounds": "3-byte ciphertext body, arbitrary C1/C3, arbitrary point validator outcome",
           "stubs": ["point ops / SM3: arbitrary", "diagnostic monitor"]}, **MON),
 ]
+from . import C08
+import copy
+for o in C08.STREAM:
+    d = copy.deepcopy(o); d["id"] = d["id"].replace("C08.stream.", "C19.tls_io_quiet."); d["defs"] = list(d.get("defs", [])) + ["-DMONITOR"]; d.update(MON)
+    d["title"] = "no data dump on any path (incl. every error path) of: " + d["title"]; d["stubs"] = d["stubs"] + ["diagnostic monitor"]
+    OBLIGATIONS.append(d)
 NOTE = "C19: secrets on diagnostic channels."
